@@ -227,4 +227,34 @@ CLAIMS = {
                 "statement only bounds the effect to whitespace; exact trimming is checked under C01.",
         "technique": "metamorphic property-based testing over marker assignments (Hypothesis)",
     },
+    "C06": {
+        "level": "Generated-input search with measured boundaries: ~3.9k generated programs (loop nests of depth <= 4 of "
+                 "for / tablerow / render-for / include-for crossing render, include, macro, capture, blank blocks, "
+                 "block.super; text with CR/CRLF/multi-byte) each measured without limits (O output bytes, W bytes "
+                 "written to all limited buffers, I executed iterations per nest via data-side probes, P product of "
+                 "active loop lengths, S locals size) and then rendered under every limit in {O,W,I,P,S} +-1 and depths "
+                 "2/5 (~20 renders per program), two-sided oracles (must fail above, must be byte-identical below, grey "
+                 "zone where captured text counts); plus every digraph on <= 3 templates x 5 edge realisations "
+                 "(include, render, macro, extends, mixed) x every start node (7,850 cases, exhaustive) and drawn "
+                 "4-node graphs: recursion must end in a LiquidError, never RecursionError or the watchdog.",
+        "design_ref": "DESIGN.md §3 C06",
+        "note": "The local-namespace limit is defined by sys.getsizeof, so only the inequality on measured sizes and "
+                "limit+-1 equivalence are checked. Success with P > limit >= I (break, ragged inner lengths) is a "
+                "labelled grey zone, not a failure.",
+        "technique": "property-based testing with measured-consumption boundary enumeration + exhaustive small recursion graphs",
+    },
+    "C08": {
+        "level": "Bounded-exhaustive + generated: all inheritance chains of depth <= 3 (quick; <= 4 and 5 thorough) over "
+                 "1-3 block names where each template independently omits / defines / nests / requires each block and "
+                 "uses block.super (97k configurations quick, 581k thorough, modulo renaming), an error family (duplicate "
+                 "blocks, two extends, mismatched endblock, unmet required, cycles of length 1-4 entered at every node, "
+                 "missing parent) and Hypothesis-generated longer chains incl. chains entered through include/render "
+                 "inside a block of another chain; each rendered through DictLoader and CachingDictLoader, sync and "
+                 "async, and compared with an independent resolver (lv/model/inherit.py). Exhaustive for the enumerated "
+                 "families; exploration beyond.",
+        "design_ref": "DESIGN.md §3 C08",
+        "note": "Shapes the docs do not pin down are labelled, not asserted: a chosen `required` definition that is never "
+                "reached, duplicate block names without extends, mutually nested blocks that describe an infinite page.",
+        "technique": "bounded-exhaustive enumeration + property-based generation against a reference resolver",
+    },
 }
